@@ -42,7 +42,7 @@ pub async fn run(args: &Args) {
         "real LoadBalanceConnector with n=1..8 recording members: round-robin windows under a sequential driver and exact totals under 16 concurrent tasks on the multi-thread runtime; hashBy over 8 key expressions with repeated keys (incl. equal key strings from different target representations); random membership and coverage; recorded connector == member used. distinct = distinct (algorithm, n, key expression / driver)",
     );
     let mut rng = Rng::new(args.seed);
-    let rounds = args.n(40, 4000);
+    let rounds = args.n(300, 6000);
     for n in 1..=8usize {
         let names: Vec<String> = (0..n).map(|i| format!("m{}", i)).collect();
         // ---------------- round robin
